@@ -157,6 +157,45 @@ def inconclusive(pid, tier, seed, reason, res=None, wall=0.0):
     return 3
 
 
+def report_violations(pid, tier, seed, new):
+    os.makedirs(os.path.join(VERIF, "replays"), exist_ok=True)
+    seen = set()
+    for v in new:
+        if v["signature"] in seen:
+            continue
+        seen.add(v["signature"])
+        h = hashlib.sha256(json.dumps(v, sort_keys=True).encode()).hexdigest()[:12]
+        path = os.path.join("replays", f"{pid}-{h}.json")
+        with open(os.path.join(VERIF, path), "w") as f:
+            json.dump({"property": pid, "tier": tier, "seed": seed, "scenario": v.get("scenario"),
+                       "scenario_name": v.get("scenario_name"), "signature": v["signature"],
+                       "detail": v.get("detail")}, f, indent=1)
+        print(f"VIOLATION property={pid} replay={path} signature={v['signature']}")
+    return 1
+
+
+def salvage_violations(pid, tag=""):
+    """violation events the worker streamed to its event log before it stopped"""
+    log = os.path.join(VERIF, "logs", f"{pid}{tag}.events.jsonl")
+    out, seen = [], set()
+    try:
+        with open(log, errors="replace") as f:
+            for line in f:
+                if '"ev":"violation"' not in line:
+                    continue
+                try:
+                    ev = json.loads(line)
+                except ValueError:
+                    continue
+                if ev.get("signature") and ev["signature"] not in seen:
+                    seen.add(ev["signature"])
+                    out.append({"signature": ev["signature"], "scenario": ev.get("scn"), "scenario_name": None,
+                                "detail": {"salvaged_from_event_log": True}})
+    except OSError:
+        pass
+    return out
+
+
 def run_harness(binary, pid, tier, seed, harness, extra_args=(), timeout=None, tag=""):
     os.makedirs(os.path.join(VERIF, "logs"), exist_ok=True)
     out = os.path.join(VERIF, "logs", f"{pid}{tag}.result.json")
@@ -221,6 +260,18 @@ def main(argv):
         post_dead = getattr(P, "dead_" + pid, None)
         if post_dead and not replay:
             return post_dead(sys.modules[__name__], pid, tier, seed, binary, err)
+        # the worker did not finish (watchdog / crash): violations it had already observed and streamed to the
+        # event log still count; the unfinished rest is inconclusive
+        salvaged = salvage_violations(pid)
+        known = load_known()
+        salvaged = [v for v in salvaged if not any(k["property"] == pid and k["signature"] == v["signature"] for k in known)]
+        if salvaged:
+            print(f"NOTE worker did not finish ({err}); reporting the violations it had streamed to logs/{pid}.events.jsonl")
+            try:
+                write_evidence(pid, tier, seed, {"violations": salvaged}, wall, len(salvaged), inconclusive=[err])
+            except Exception:
+                pass
+            return report_violations(pid, tier, seed, salvaged)
         return inconclusive(pid, tier, seed, err, wall=wall)
 
     # property-specific offline checkers over the recorded history
@@ -268,20 +319,7 @@ def main(argv):
     print(f"[{pid}] tier={tier} seed={seed} events={res.get('events')} distinct={res.get('distinct_nontrivial')} "
           f"violations={len(new)} known={len(matched)} inconclusive={len(inc)} wall={total_wall:.1f}s")
     if new:
-        os.makedirs(os.path.join(VERIF, "replays"), exist_ok=True)
-        seen = set()
-        for v in new:
-            if v["signature"] in seen:
-                continue
-            seen.add(v["signature"])
-            h = hashlib.sha256(json.dumps(v, sort_keys=True).encode()).hexdigest()[:12]
-            path = os.path.join("replays", f"{pid}-{h}.json")
-            with open(os.path.join(VERIF, path), "w") as f:
-                json.dump({"property": pid, "tier": tier, "seed": seed, "scenario": v.get("scenario"),
-                           "scenario_name": v.get("scenario_name"), "signature": v["signature"],
-                           "detail": v.get("detail")}, f, indent=1)
-            print(f"VIOLATION property={pid} replay={path} signature={v['signature']}")
-        return 1
+        return report_violations(pid, tier, seed, new)
     if inc:
         print(f"INCONCLUSIVE property={pid} reason={inc[0]}")
         return 3
